@@ -80,6 +80,12 @@ static long sends[65536];
 static size_t nsend, isend;
 
 static sem_t sem_parked, sem_go;
+/* `stopcb <n>`: the n-th update callback made by the socket thread holds that thread inside the apply phase until the
+ * main thread has entered rtr_stop() (a stop that arrives in the middle of applying a response) */
+static long stopcb_at;
+static volatile long cb_count;
+static volatile int stopcb_fired, stop_entered;
+static void stopcb_hook(void);
 static volatile int ended;
 
 static struct rtr_socket rsock;
@@ -246,6 +252,7 @@ static void pfx_cb(struct pfx_table *t, const struct pfx_record rec, const bool 
 	(void)t;
 	fmt_rec(b, &rec);
 	tr("PFXCB %c%s", added ? '+' : '-', b);
+	stopcb_hook();
 }
 
 static void spki_cb(struct spki_table *t, const struct spki_record rec, const bool added)
@@ -255,6 +262,7 @@ static void spki_cb(struct spki_table *t, const struct spki_record rec, const bo
 	(void)t;
 	fmt_key(b, rec.asn, rec.ski, rec.spki, rec.socket);
 	tr("KEYCB %c%s", added ? '+' : '-', b);
+	stopcb_hook();
 }
 
 static void state_cb(const struct rtr_socket *s, const enum rtr_socket_state st, void *a, void *b)
@@ -349,6 +357,25 @@ static size_t unhex(const char *h, unsigned char **out)
 	return n;
 }
 
+static void stopcb_hook(void)
+{
+	if (!stopcb_at || stopcb_fired || !rsock.thread_id || !pthread_equal(pthread_self(), rsock.thread_id))
+		return;
+	if (++cb_count != stopcb_at)
+		return;
+	stopcb_fired = 1;
+	tr("STOPCB");
+	while (!stop_entered) {
+		struct timespec ts = {0, 1000000};
+
+		nanosleep(&ts, NULL);
+	}
+	/* give rtr_stop() time to get as far as it gets without this thread */
+	struct timespec ts = {0, 40000000};
+
+	nanosleep(&ts, NULL);
+}
+
 int main(void)
 {
 	static char line[1 << 23];
@@ -363,7 +390,9 @@ int main(void)
 		char w1[32] = "", w2[32] = "";
 
 		sscanf(line, "%31s %31s", w1, w2);
-		if (!strcmp(w1, "cfg")) {
+		if (!strcmp(w1, "stopcb")) {
+			stopcb_at = atol(w2);
+		} else if (!strcmp(w1, "cfg")) {
 			sscanf(line, "%*s %u %u %u %u", &refresh, &expire, &retry, &mode);
 		} else if (!strcmp(w1, "pre") && !strcmp(w2, "pfx")) {
 			char fam[4], bits[256];
@@ -464,6 +493,8 @@ int main(void)
 				break;
 			if (ended)
 				break;
+			if (stopcb_fired == 1)
+				break;
 			nanosleep(&ts, NULL);
 		}
 		if (ended) {
@@ -471,6 +502,10 @@ int main(void)
 			break;
 		}
 		tr("STOPPING");
+		if (stopcb_fired == 1) {
+			stopcb_fired = 2;
+			stop_entered = 1;
+		}
 		rtr_stop(&rsock);
 		dump("stopped");
 	}
